@@ -203,18 +203,16 @@ def skip_loop(ctx, rep, rule):
         return
     ub = unwrap[0]
     # discriminant switch on unwrap_pdu's result
-    sw = None
-    for b in body.live_blocks():
-        t = b.term
-        if t and t["k"] == "switch":
-            term = prov.operand(t["discr"])
-            if term[0] == "discr" and term[1][0] == "call" and (term[1][1] or "").endswith("::unwrap_pdu"):
-                sw = b
+    sws = [b for b, t in flow.discr_switches(body, prov, lambda t: t[0] == "call" and (t[1] or "").endswith("::unwrap_pdu"))]
+    dom = cfg.dominators(body)
+    sws = [b for b in sws if not any(o.idx != b.idx and o.idx in dom.get(b.idx, ()) for o in sws)]
+    sw = sws[0] if sws else None
     if sw is None:
         rep.missing(rule, "_recv_inner: match on unwrap_pdu(..)")
         return
-    none_t = [tg for tg, lb in sw.edges() if lb == ("case", 0)]
-    some_t = [tg for tg, lb in sw.edges() if lb == ("case", 1)]
+    ve = flow.variant_edges(body, sw) or {}
+    none_t = [ve["None"]] if "None" in ve else []
+    some_t = [ve["Some"]] if "Some" in ve else []
     rets = body.returns()
     # (1) from the None arm every path to a return passes recv_socket again
     if none_t:
